@@ -273,7 +273,11 @@ func DrawProxyParams(ch *sim.Choices, prop string) ProxyParams {
 				p.RetryOn, p.NumRetries = true, 1+ch.Pick("params", "tryprobe_retries", 2)
 				p.TryMs = pickFrom(ch, "params", "tryprobe_ms", []int{300, 800})
 				p.MaxRetries = 0
-				if ch.Chance("params", "trycapped", 1, 3) {
+				if ch.Chance("params", "tryprobe_maxretries", 1, 3) {
+					// ... with max_retries 1 and one request at a time on one connection: a request holds at most one
+					// unit of the retries resource, so the limit never trips and the budget is used up
+					p.MaxRetries, p.NumRetries, p.NConns, p.ReqsPerConn = 1, 2, 1, 1
+				} else if ch.Chance("params", "trycapped", 1, 3) {
 					// ... or the per-try timeouts add up to more than the global timeout, which then ends the
 					// exchange in the middle of the second attempt (counted from the request, not from the retry)
 					p.GlobalMs, p.TryMs = 4000, 3000
